@@ -681,7 +681,7 @@ class Intrinsics:
                 sig.append('n')
             else:
                 raise InterpError(f'abstract({name}): unsupported argument {a!r}')
-        f = z3.Function(f'abs_{name}_{"".join(sig)}', *([z.sort() for z in zs] + [_sort or z3.BoolSort()]))
+        f = z3.Function(f'abs_{name}_{"".join(sig)}', *([z.sort() for z in zs] + [z3.BoolSort() if _sort is None else _sort]))
         return f(*zs)
 
     def s_implies(self, P, a, b):
